@@ -99,7 +99,81 @@ def c20(res, st):
                         "error message texts are passed through unchanged (only the prefix is specified)"]
 
 
-CHECKS = {"C20": c20}
+# ---------------------------------------------------------------- lexer inputs shared by C13/C14/C03/C12
+ESC_ALPHABET = [b'"', b"'", b"`", b"\\", b"u", b"U", b"x", b"0", b"3", b"7", b"8", b"a", b"n", b"D", b"F", b"\n"]
+LIT_PREFIXES = [b'"', b"'", b"`", b'b"', b"r'", b'"""', b"'''", b'rb"', b"B'''", b'R"""']
+
+
+def lexer_inputs(rnd, tier, pid):
+    """non-exhaustive part: regression corpus first, upstream corpus files, random 256-byte strings, token soups"""
+    ins = list(gens.regression("lexer")) + list(gens.regression(pid))
+    ins += [s for (_, _, s) in gens.corpus()]
+    nr = 3000 if tier == "quick" else 60000
+    for _ in range(nr):
+        ins.append(gens.random_bytes(rnd, rnd.randrange(0, 24)))
+    for _ in range(nr):
+        ins.append(gens.random_bytes(rnd, rnd.randrange(0, 40), gens.LEX_ALPHABET + ESC_ALPHABET + [b"\xc2\xa0", b"\xe3\x80\x80", b"\xff", b"\xe2\x80\xa8", b"\t", b"\r"]))
+    for _ in range(nr // 3):
+        ins.append(gens.token_soup(rnd, rnd.randrange(1, 15)))
+    for _ in range(nr // 3):
+        k, nm, s = rnd.choice(gens.corpus())
+        ins.append(gens.mutate(rnd, s))
+    return ins
+
+
+def lexer_correspondence(res, mode, proj, oracle, label, on_oracle_fail, exh_len=None):
+    """exhaustive + sampled comparison Go lexer vs extracted model under a projection; oracle failures are
+    concrete violations; remaining disagreements break the correspondence obligation."""
+    rnd = random.Random(res.seed)
+    n5 = exh_len or (5 if res.tier == "quick" else 6)
+    total = 0
+    mism = []
+    r = vlib.lex_exhaustive(gens.LEX_ALPHABET, n5, mode, b"", proj, oracle)
+    total += r["n"]; mism += r["mismatches"]; fails = list(r["fails"])
+    for pre in LIT_PREFIXES:
+        r = vlib.lex_exhaustive(ESC_ALPHABET, 4 if res.tier == "quick" else 5, mode, pre, proj, oracle)
+        total += r["n"]; mism += r["mismatches"]; fails += r["fails"]
+    ins = lexer_inputs(rnd, res.tier, res.pid)
+    g, m = vlib.lex_cases(ins, mode, proj)
+    for x, y in zip(g, m):
+        if x != y:
+            mism.append((x.split(" => ")[0], x, y))
+    if oracle != "-":
+        fails += vlib.lex_prop(oracle, ins)
+    nontrivial = len(set(l for l in g if l.count(",") > 12))
+    for (h, why) in fails:
+        on_oracle_fail(h, why)
+    failed_inputs = set(h for (h, _) in fails)
+    rest = [(h, x, y) for (h, x, y) in mism if h not in failed_inputs]
+    res.obligation("correspondence %s: Go lexer == extracted Coq model on %d strings" % (label, total + len(ins)),
+                   not rest, "\n".join("%s\n  go:    %s\n  model: %s" % t for t in rest[:5]))
+    res.add_cases(total + len(ins), nontrivial + total // 2, [g[0], g[len(g) // 2][:300], g[-1][:300]])
+    res.extra.setdefault("lexer_correspondence", []).append(
+        {"label": label, "mode": mode, "projection": proj, "exhaustive_alphabet24_maxlen": n5,
+         "exhaustive_strings": total, "escape_family_prefixes": [p.decode("latin-1") for p in LIT_PREFIXES],
+         "sampled_inputs": len(ins), "disagreements": len(mism), "oracle_failures": len(fails)})
+    return mism, fails
+
+
+# ---------------------------------------------------------------- C13
+def c13(res, st):
+    std_coq(res, "C13", st)
+    if not (st["go"] and st["driver"]):
+        return
+
+    def fail(h, why):
+        res.violation("lexer output does not tile the input: " + why, {"kind": "lex-c13", "input_hex": h, "why": why})
+    lexer_correspondence(res, "p", "c13", "c13", "C13 (Raw/Pos/End/Space/Comments of accepted inputs)", fail)
+    res.cov["rule"] = ("every string of <= N symbols over the 24-symbol alphabet of the property (N=5 quick, 6 thorough), every "
+                       "literal prefix x escape alphabet word of <= 4/5 symbols, upstream corpus, random 256-byte strings, token soups, "
+                       "mutated corpus; on each: the C13 statement evaluated on the real lexer (oracle) and all tiling observables "
+                       "compared with the extracted Coq model for which C13_lossless is proved; non-trivial = at least two tokens "
+                       "(counted exactly on the sampled part, estimated as half of the exhaustive strings)")
+    res.assumptions += ["unicode.IsSpace / utf8.DecodeRuneInString are modelled (Base/Utf8.v) and compared with Go on every case",
+                        "token.KeywordsMap is read through the translator (Gen/Keywords.v)"]
+
+
+CHECKS = {"C20": c20, "C13": c13}
 
 
 def run(pid, tier, seed):
